@@ -77,6 +77,25 @@ def mutate(rnd, cfg, stats):
             stats.append("rule_string_case_changed")
             if rnd.random() < 0.7:
                 return c
+    if rnd.random() < 0.12:
+        # an edit that keeps the size of the file: two services exchange their protocols, two rules their classes
+        done = False
+        if len(svcs) >= 2 and rnd.random() < 0.6:
+            a, b = rnd.sample(sorted(svcs), 2)
+            if svcs[a] != svcs[b]:
+                svcs[a], svcs[b] = svcs[b], svcs[a]
+                stats.append("svc_protocols_swapped")
+                done = True
+        if not done:
+            withc = [n for n in sorted(rules) if "class" in rules[n]]
+            if len(withc) >= 2:
+                a, b = rnd.sample(withc, 2)
+                if rules[a]["class"] != rules[b]["class"]:
+                    rules[a]["class"], rules[b]["class"] = rules[b]["class"], rules[a]["class"]
+                    stats.append("rule_classes_swapped")
+                    done = True
+        if done and rnd.random() < 0.8:
+            return c
     for _ in range(rnd.randint(1, 3)):
         k = rnd.random()
         if k < 0.15 and svcs:
@@ -247,7 +266,7 @@ class ReloadProfile:
     def session(self, chain, plan, tag, fresh):
         ex = Exec(chain[0], tag=tag, prop="C17")
         ex.nonstop = True
-        out = {"config": None, "convs": [], "ok": True, "rejected": False}
+        out = {"config": None, "convs": [], "ok": True, "rejected": False, "notread": False}
         if ex.res.infra:
             out["ok"] = False
             return out, ex.finish()
@@ -266,7 +285,9 @@ class ReloadProfile:
                     out["ok"] = False
                     return out, ex.finish()
                 ex.log("reload", text, rep.lines() + rep.notes)
-                if not any(n == "CONFREAD 0" for n in rep.notes):
+                if not any(n.startswith("CONFREAD") for n in rep.notes):
+                    out["notread"] = True       # the reload signal did not make the daemon read its file at all
+                elif not any(n == "CONFREAD 0" for n in rep.notes):
                     out["rejected"] = True
                 ex.cfg = cfg
                 ex.w.cfg = json.loads(json.dumps(dict(cfg, services=ex.w.cfg["services"], rules=ex.w.cfg.get("rules", {}))))
@@ -296,6 +317,9 @@ class ReloadProfile:
         crash = [v for v in rr.viol + rf.viol if v.rule in ("memory-error", "signal", "died", "hang", "unclean-exit", "ub-memory")]
         for v in crash:
             viol.append(Violation(("C17",) + tuple(p for p in v.props if p != "C17"), v.rule, v.detail))
+        if not crash and R["notread"]:
+            viol.append(Violation("C17", "reload-not-performed", "the reload signal was delivered and the loop ran, but the daemon never read the "
+                                  "(changed) configuration file"))
         if not crash and not R["rejected"] and R["ok"] and F["ok"]:
             # every (service, protocol) a fresh daemon reports must be reported after the reload too; what the
             # reloaded daemon lists in addition may be retired records kept while clients still refer to them
